@@ -1,0 +1,32 @@
+//go:build verif
+
+package kmip
+
+// Read-only views of the dispatch tables for the verification harness (build tag verif only).
+
+// VerifOperationTypes returns, per registered operation, the names of its request and response payload types.
+func VerifOperationTypes() map[Operation][2]string {
+	res := map[Operation][2]string{}
+	for op, t := range operationRegistry {
+		res[op] = [2]string{t.request.String(), t.response.String()}
+	}
+	return res
+}
+
+// VerifObjectTypes returns, per registered object type, the name of the Go type decoded for it.
+func VerifObjectTypes() map[ObjectType]string {
+	res := map[ObjectType]string{}
+	for ot, t := range objectTypes {
+		res[ot] = t.String()
+	}
+	return res
+}
+
+// VerifAttributeTypes returns, per standard attribute name, the name of the Go type of its value.
+func VerifAttributeTypes() map[AttributeName]string {
+	res := map[AttributeName]string{}
+	for n, t := range attrTypes {
+		res[n] = t.String()
+	}
+	return res
+}
